@@ -19,7 +19,7 @@ NAMES = ["fft", "fft2", "fftn", "ifft", "ifft2", "ifftn", "rfft", "rfft2", "rfft
 class Prop(PropBase):
     id = "C20"
     lean_targets = ["PbProps.C20"]
-    theorems = ["Pb.C20." + t for t in ("C20_names", "C20_stft_labels", "C20_index_map", "C20_istft_labels", "C20_istft_inverse")]
+    theorems = ["Pb.C20." + t for t in ("C20_names", "C20_stft_labels", "C20_index_map", "C20_istft_labels", "C20_istft_inverse", "C20_source_formulas")]
     trusted_base = ["PbModel/Stft.lean + Gen/Fft.lean (translator)", "numpy.fft and a longdouble DFT matrix as references"]
     assumptions = []
     rule = ("names: 14 transforms x rank 1-3 x axis/axes x optional n/s x norm in {None,'ortho','forward'} x float/complex input x "
